@@ -159,8 +159,8 @@ def has_shift(node):
     return any(is_shift(m) for m in hir_walk(node))
 
 
-def c14c(prog, R):
-    r = R.rule("C14.c", "every table read path shifts entries by the table's global sequence number", "P,D")
+def c14c(prog, R, rid="C14.c"):
+    r = R.rule(rid, "every table read path shifts entries by the table's global sequence number", "P,D")
     targets = [
         ("<table::iter::Iter as std::iter::Iterator>::next", 3),
         ("<table::iter::Iter as std::iter::DoubleEndedIterator>::next_back", 3),
